@@ -8,6 +8,12 @@ python3 tools/gen_manifest.py >/dev/null
 fail=0
 for id in $(./bin/rlcheck list 2>/dev/null || true); do :; done
 ./check C08 >/dev/null 2>&1  # forces rebuild if sources changed
+# the table renamed identifiers are resolved against (rlcheck/names.go) is the clean /repo HEAD's
+if [ -z "$(git -C /repo status --porcelain)" ]; then
+  ./bin/rlcheck dump-names --repo /repo > rlcheck/pinned_names.json.new && { cmp -s rlcheck/pinned_names.json.new rlcheck/pinned_names.json || cp rlcheck/pinned_names.json.new rlcheck/pinned_names.json; }
+  rm -f rlcheck/pinned_names.json.new
+  ./check C08 >/dev/null 2>&1
+fi
 for id in $(./bin/rlcheck list); do
   out=$(./check "$id" 2>&1); rc=$?
   echo "$out" | tail -1
